@@ -1,6 +1,10 @@
 //! drive: executes scenarios and generated inputs on the real `ppp` crate (path dependency on
 //! /repo's working tree) and records what it observed as ndjson. No expectations live here.
 
+// matches over the crate's enums carry a catch-all arm, so that a variant added to the crate is
+// reported as data instead of breaking the build of the harness
+#![allow(unreachable_patterns)]
+
 mod builder;
 mod misc;
 mod proj;
